@@ -1032,3 +1032,76 @@ mod tests {
         assert_eq!(tightened["z"].get_type(), &VariableType::Real(-10.0, 4.0));
     }
 }
+
+#[cfg(feature = "verif-hooks")]
+impl BoundsAnalyzer {
+    /// verification hook: same as `analyze` but with an explicit propagation step limit
+    pub(crate) fn verif_analyze_with_steps(
+        domain: &IndexMap<String, DomainVariable>,
+        constraints: &[Constraint],
+        max_steps: usize,
+    ) -> Self {
+        Self::analyze_with_options(
+            domain,
+            constraints,
+            BoundsOptions {
+                max_steps,
+                ..BoundsOptions::default()
+            },
+        )
+    }
+}
+
+/// verification hook: range derived for every declared variable by bound propagation,
+/// optionally with an explicit propagation step limit
+#[cfg(feature = "verif-hooks")]
+pub fn verif_derived_bounds(
+    model: &crate::parser::model_transformer::Model,
+    max_steps: Option<usize>,
+) -> Vec<(String, f64, f64)> {
+    let analyzer = verif_analyzer(model, max_steps);
+    model
+        .domain()
+        .keys()
+        .map(|name| {
+            let b = analyzer.bounds_of(&Exp::Variable(name.clone()));
+            (name.clone(), b.lower, b.upper)
+        })
+        .collect()
+}
+
+/// verification hook: range derived for each given expression under the propagated variable ranges
+#[cfg(feature = "verif-hooks")]
+pub fn verif_bounds_of(
+    model: &crate::parser::model_transformer::Model,
+    exps: &[Exp],
+    max_steps: Option<usize>,
+) -> Vec<(f64, f64)> {
+    let analyzer = verif_analyzer(model, max_steps);
+    exps.iter()
+        .map(|e| {
+            let b = analyzer.bounds_of(e);
+            (b.lower, b.upper)
+        })
+        .collect()
+}
+
+#[cfg(feature = "verif-hooks")]
+fn verif_analyzer(
+    model: &crate::parser::model_transformer::Model,
+    max_steps: Option<usize>,
+) -> BoundsAnalyzer {
+    match max_steps {
+        Some(steps) => {
+            BoundsAnalyzer::verif_analyze_with_steps(model.domain(), model.constraints(), steps)
+        }
+        None => BoundsAnalyzer::analyze(model.domain(), model.constraints()),
+    }
+}
+
+#[cfg(all(kani, feature = "verif-hooks"))]
+mod verif_kani {
+    #[allow(unused_imports)]
+    use super::*;
+    include!(concat!(env!("ROOC_VERIF_KANI_DIR"), "/bounds.rs"));
+}
